@@ -29,7 +29,7 @@ theorem ok_exactly_one (w : World) (o f : Nat) (a : Args) (m : Mock) (hm : w.moc
     (hex : ∀ e ∈ m.active f, ∃ x, w.exps e = some x) :
     (C01.Accepted (w.callFn o f a).2 →
       ∃ e, (find (w.expMatches a) w.expOrder (m.active f)).1 = some e ∧
-        (w.callFn o f a).2.filter Ev.isOk = [Ev.ok w.reporter e]) ∧
+        (w.callFn o f a).2.filter Ev.isOk = [Ev.ok w.okReporter e]) ∧
     (¬ C01.Accepted (w.callFn o f a).2 → (w.callFn o f a).2.filter Ev.isOk = []) := by
   cases callFn_cases w o f a m hm hex with
   | noMatch hfind heq =>
@@ -87,13 +87,23 @@ theorem only_calls_report_ok (w : World) (op : Op) (hop : op.isCall = false) (r 
 
 /-- **C16, set_reporter** returns the previously installed reporter(s); from then on violation and
     OK reports go to the newly installed ones only. -/
-theorem reporter_exchange (w : World) (r : Nat) :
-    w.step (.setreporter r) = ({ w with reporter := r }, [.reporterWas w.reporter]) := by
+theorem reporter_exchange (w : World) (r k : Nat) :
+    w.step (.setreporter r (some k)) =
+      ({ w with reporter := r, okReporter := k }, [.reporterWas w.reporter, .okReporterWas w.okReporter]) := by
+  simp [step, legal]
+
+/-- the one-argument `set_reporter(f)` exchanges the violation reporter only: the installed OK reporter
+    keeps receiving the OK reports. -/
+theorem reporter_exchange_one (w : World) (r : Nat) :
+    w.step (.setreporter r none) = ({ w with reporter := r, okReporter := w.okReporter }, [.reporterWas w.reporter]) := by
+  simp [step, legal]
+
+theorem ok_reporter_kept (w : World) (r : Nat) : (w.step (.setreporter r none)).1.okReporter = w.okReporter := by
   simp [step, legal]
 
 theorem reports_go_to_installed (w : World) (op : Op) :
     ∀ ev ∈ (w.step op).2, (∀ s r' rp, ev = Ev.report s r' rp → r' = w.reporter) ∧
-                          (∀ r' e, ev = Ev.ok r' e → r' = w.reporter) := by
+                          (∀ r' e, ev = Ev.ok r' e → r' = w.okReporter) := by
   intro ev hev
   cases hop : op.isCall with
   | false =>
@@ -119,8 +129,9 @@ private def ex : World :=
                      .expect 2 (spec (· == 3) 0 102)]).1
 
 -- the older expectation e0 handles the call although e2, e1 are newer; a forbidden call gets no OK
-example : (ex.run [.call 0 1 [1], .call 0 1 [3], .setreporter 2, .call 0 1 [5]]).2 =
+example : (ex.run [.call 0 1 [1], .call 0 1 [3], .setreporter 2 (some 2), .call 0 1 [5], .setreporter 3 none, .call 0 1 [5], .call 0 1 [3]]).2 =
     [[.ok 0 0, .evalRet 0, .result (.val 100)], [.report .fatal 0 (.forbidden 2 [3]), .result (.threw .rep)],
-     [.reporterWas 0], [.ok 2 1, .evalRet 1, .result (.val 101)]] := by decide
+     [.reporterWas 0, .okReporterWas 0], [.ok 2 1, .evalRet 1, .result (.val 101)],
+     [.reporterWas 2], [.ok 2 1, .evalRet 1, .result (.val 101)], [.report .fatal 3 (.forbidden 2 [3]), .result (.threw .rep)]] := by decide
 
 end Tromp.C16
